@@ -156,7 +156,7 @@ let () = iter_lines (fun line ->
      | Res.Err e -> Printf.printf "ERR %d\n" (int_of_nat e)
      | Res.Panic -> print_endline "PANIC")
   | ["trace"; hex] ->
-    (match Vp8lSpec.decode_full (zbytes_of_hex hex) with
+    (match Vp8lSpec.decode_header (zbytes_of_hex hex) with
      | Res.Ok d ->
        let ts = Stdlib.List.map (fun t -> Printf.sprintf "%d/%d" (int_of_z t.Vp8lSpec.t_type) (int_of_z t.Vp8lSpec.t_bits)) d.Vp8lSpec.d_transforms in
        Printf.printf "T %d %d %d %d %d %d t:%s\n" (int_of_z d.Vp8lSpec.d_w) (int_of_z d.Vp8lSpec.d_h)
